@@ -507,6 +507,22 @@ def part_bootstrap(rec, tier, seed, workdir):
             rec.fail('C.bootstrap-evaluations-do-not-replace-best-point-on-estimation-data', case,
                      {'point': hist[lls.index(max(lls))][0], 'loglike_on_estimation_data': max(lls)},
                      {'point': val, 'loglike_on_estimation_data': got})
+            continue
+        # history: after the bootstrap run, a later evaluation on the estimation data at a worse point (what
+        # check_derivatives or a finite-difference Hessian does) must leave the saved point in place
+        worse = [0.0, 0.0]
+        if oracle_ll(cols, K, to_oracle_order(b, names, worse)) < max(lls) - 1e-6:
+            try:
+                b.calculate_likelihood_and_derivatives(worse, scaled=False, hessian=False, bhhh=False)
+            except Exception as e:  # noqa: BLE001
+                rec.fail('harness.exception', dict(case, step='later-worse-evaluation'), 'no exception', f'{type(e).__name__}: {e}')
+                continue
+            status2, val2 = parse_file(path, names)
+            if status2 != 'ok' or not same_point(val2, val):
+                rec.fail('C.worse-evaluation-after-bootstrap-does-not-replace-best-point', case,
+                         {'point': val, 'loglike_on_estimation_data': got},
+                         {'status': status2, 'point': val2,
+                          'loglike_on_estimation_data': oracle_ll(cols, K, val2) if status2 == 'ok' else None})
     return n
 
 
